@@ -76,7 +76,7 @@ pub fn exec(line: &str) -> String {
                     let r = guarded(std::panic::AssertUnwindSafe(|| {
                         if t[4] == "trk" {
                             let f = parse_ints(&t[5..]);
-                            let trk = Trk { leap: f[0] as u16, ref_ns: f[1], off: f[2] as u32, disp: f[3] as u32, delay: f[4] as u32, interval: f[5] as u32, refid: 0, ip4: None };
+                            let trk = Trk { leap: f[0] as u16, ref_ns: f[1], off: f[2] as u32, disp: f[3] as u32, delay: f[4] as u32, interval: f[5] as u32, refid: 0, ip4: None, stratum: None };
                             let mono = clk.mono_floor(ta);
                             vclock::set_ns(vclock::REALTIME, clk.real_floor(tp));
                             vclock::enable();
